@@ -221,11 +221,10 @@ def run(ctx):
             try:
                 if role == "dynamic":
                     ob = mk_dynamic(Gen(rng), rng, oid, rng.randint(0, 100))[0]
-                    if not isinstance(ob.initial_state.position, np.ndarray) or ob.initial_state.is_uncertain_orientation:
-                        continue
                 elif role == "static":
                     ob = StaticObstacle(oid, G.enum(ObstacleType), gen_shape(G, rng),
-                                        gen_state(G, rng, "InitialState", 0, oid))
+                                        gen_state(G, rng, "InitialState", 0, oid,
+                                                  uncertain=rng.choice([None, None, "position", "orientation"])))
                 elif role == "phantom":
                     ob = PhantomObstacle(oid, SetBasedPrediction(1, [Occupancy(1 + j, G.basic_shape()) for j in range(3)]))
                 else:
